@@ -2,9 +2,8 @@ SPECIFICATION SpecC16q
 CONSTANTS
   TxSpace <- Small16
   EthKeys <- NoKeys
-  MaskByPosition = FALSE
-  RawScriptFallback = FALSE
+  MaskByPosition = TRUE
+  RawScriptFallback = TRUE
   MutClasses <- MutAll
-INVARIANTS Sound MutatedRejected SameSigners
-
+INVARIANTS SoundUpToDupKeys MutatedRejected
 CHECK_DEADLOCK FALSE
